@@ -171,3 +171,179 @@ def build_sampled(c, cls=None):
     if cls is None:
         from yaw.correlation.corrdata import CorrData as cls
     return cls(build_binning(c["binning"]), np.array(c["data"], dtype=float), np.array(c["samples"], dtype=float))
+
+
+# --------------------------------------------------------------------------
+# configurations and sky scenes for the end-to-end pipeline checks
+# --------------------------------------------------------------------------
+import math  # noqa: E402
+
+UNITS = ["kpc", "Mpc", "rad", "deg", "arcmin", "arcsec", "kpc/h", "Mpc/h"]
+COSMOLOGIES = ["Planck15", "Planck15", "WMAP9", "custom"]
+
+
+def loguniform(lo, hi):
+    return floats(math.log(lo), math.log(hi)).map(math.exp)
+
+
+zmin_strategy = st.one_of(
+    loguniform(1e-3, 0.05),  # below the hard-coded pruning limit
+    loguniform(0.05, 1.6),
+    loguniform(0.05, 1.6),
+    loguniform(1.6, 5.0),  # beyond the turnover of the angular diameter distance
+)
+
+
+@st.composite
+def binning_params(draw, max_bins=4, methods=("linear", "comoving", "logspace", "custom")):
+    """parameters of the redshift binning part of Configuration.create"""
+    method = draw(st.sampled_from(methods))
+    closed = draw(closed_strategy)
+    nb = draw(st.integers(1, max_bins))
+    zmin = draw(zmin_strategy)
+    width = draw(st.one_of(loguniform(0.01, 0.3), loguniform(0.3, 4.0)))
+    zmax = zmin + width
+    if method == "custom":
+        fr = sorted(draw(st.lists(floats(0.05, 0.95), min_size=nb - 1, max_size=nb - 1, unique=True)))
+        edges = [zmin] + [zmin + f * width for f in fr] + [zmax]
+        edges = [float(e) for e in edges]
+        if any(b - a < 1e-6 for a, b in zip(edges, edges[1:])):
+            edges = [zmin + width * k / nb for k in range(nb + 1)]
+        return {"edges": edges, "closed": closed, "zmin": None, "zmax": None, "num_bins": None, "method": "custom"}
+    return {"edges": None, "closed": closed, "zmin": float(zmin), "zmax": float(zmax), "num_bins": nb, "method": method}
+
+
+def binning_edges_reference(b, cosmology="Planck15"):
+    """bin edges of a binning_params dict through the library (used only to lay
+    out scenes; C15 checks these edges against an independent oracle)"""
+    from vlib.pipeline import get_cosmology
+    from yaw.config import BinningConfig
+
+    if b["edges"] is not None:
+        return np.asarray(b["edges"], dtype=float)
+    cfg = BinningConfig.create(zmin=b["zmin"], zmax=b["zmax"], num_bins=b["num_bins"], method=b["method"], closed=b["closed"], cosmology=get_cosmology(cosmology))
+    return np.asarray(cfg.edges, dtype=float)
+
+
+@st.composite
+def config_case(draw, max_bins=4, max_scales=3, units=UNITS, allow_rweight=True, theta_range=(2e-3, 0.4)):
+    """A complete Configuration.create parameter set whose largest angle (over
+    all bin centres) is the drawn target ``theta_max``; returns (cfg, theta_max)."""
+    from vlib.pipeline import ANG_FACTOR, distance_mpc
+
+    cosmology = draw(st.sampled_from(COSMOLOGIES))
+    b = draw(binning_params(max_bins=max_bins))
+    unit = draw(st.sampled_from(units))
+    ns = draw(st.integers(1, max_scales))
+    theta_max = draw(loguniform(*theta_range))
+    edges = binning_edges_reference(b, cosmology)
+    mids = (edges[:-1] + edges[1:]) / 2.0
+    if unit in ANG_FACTOR:
+        conv = 1.0 / ANG_FACTOR[unit]
+    else:
+        dmin = float(np.min(distance_mpc(cosmology, unit, mids)))
+        conv = dmin * (1000.0 if unit.startswith("kpc") else 1.0)
+    rmax, rmin = [], []
+    for s in range(ns):
+        hi = theta_max if s == 0 else theta_max * draw(floats(0.2, 1.0))
+        lo = hi * draw(floats(0.02, 0.9))
+        rmax.append(float(hi * conv))
+        rmin.append(float(lo * conv))
+    cfg = dict(b)
+    cfg.update(rmin=rmin, rmax=rmax, unit=unit, cosmology=cosmology, scalar_scales=draw(st.booleans()))
+    if allow_rweight and draw(st.sampled_from([False, False, True])):
+        cfg["rweight"] = draw(st.one_of(st.sampled_from([-1.0, 1.0, 0.0, 2.0, -2.0]), floats(-2.0, 2.0)))
+        cfg["resolution"] = draw(st.one_of(st.integers(1, 6), st.integers(7, 60)))
+    else:
+        cfg["rweight"] = None
+        cfg["resolution"] = None
+    return cfg, float(theta_max)
+
+
+BASES = [
+    (0.0, math.pi / 2),  # north pole
+    (0.0, -math.pi / 2),  # south pole
+    (0.0, 0.0),  # RA seam on the equator
+    (2 * math.pi - 1e-3, 0.4),  # just below the RA wrap
+    (1e-4, -1.2),
+]
+
+
+def tangent_to_sky(base, xy):
+    """gnomonic placement of tangent-plane offsets xy (rad) around base (ra, dec)"""
+    ra0, dec0 = base
+    b = np.array([math.cos(ra0) * math.cos(dec0), math.sin(ra0) * math.cos(dec0), math.sin(dec0)])
+    e1 = np.array([-math.sin(ra0), math.cos(ra0), 0.0])
+    e2 = np.cross(b, e1)
+    xy = np.atleast_2d(np.asarray(xy, dtype=float))
+    v = b[None, :] + xy[:, :1] * e1[None, :] + xy[:, 1:2] * e2[None, :]
+    v /= np.linalg.norm(v, axis=1)[:, None]
+    ra = np.arctan2(v[:, 1], v[:, 0]) % (2 * math.pi)
+    ra[ra >= 2 * math.pi] = 0.0
+    dec = np.arcsin(np.clip(v[:, 2], -1.0, 1.0))
+    return ra, dec
+
+
+unit_disk = st.tuples(floats(0.0, 1.0), floats(0.0, 2 * math.pi)).map(lambda t: (math.sqrt(t[0]) * math.cos(t[1]), math.sqrt(t[0]) * math.sin(t[1])))
+GRID = [(gx, gy) for gx in (-1, 0, 1) for gy in (-1, 0, 1)]
+
+
+@st.composite
+def redshift_values(draw, n, edges):
+    """redshifts dominated by interesting values: on edges, next to edges, outside"""
+    edges = [float(e) for e in edges]
+    lo, hi = edges[0], edges[-1]
+    span = hi - lo
+    elem = st.one_of(
+        floats(lo, hi),
+        floats(lo, hi),
+        floats(lo, hi),
+        st.sampled_from(edges),
+        st.sampled_from(edges).map(lambda e: math.nextafter(e, math.inf)),
+        st.sampled_from(edges).map(lambda e: math.nextafter(e, -math.inf)),
+        floats(max(0.0, lo - 0.3 * span), lo),
+        floats(hi, hi + 0.3 * span),
+    )
+    return draw(st.lists(elem, min_size=n, max_size=n))
+
+
+@st.composite
+def scene_case(draw, theta_max, edges, ncat, *, max_patches=5, max_per_patch=8, need_z=(), weights="any", base=None):
+    """
+    Sky scene: K patch centres on a jittered 3x3 tangent-plane grid whose spacing
+    is drawn *relative to theta_max*; per catalog and per patch an independent
+    count and extent (so dense-compact and sparse-wide samples share centres).
+    Every catalog gets one object close to every centre (patches never empty).
+    Returns {"centers": [[ra, dec]...], "cats": [{ra, dec, w, z}...], ...}.
+    """
+    if base is None:
+        base = draw(st.one_of(st.sampled_from(BASES), st.tuples(floats(0.0, 2 * math.pi - 1e-9), floats(-1.0, 1.0).map(math.asin))))
+    K = draw(st.integers(1, max_patches))
+    spacing = theta_max * draw(loguniform(0.3, 6.0))
+    spacing = min(spacing, 0.5)
+    cells = draw(st.lists(st.sampled_from(GRID), min_size=K, max_size=K, unique=True))
+    jit = draw(st.lists(st.tuples(floats(-0.25, 0.25), floats(-0.25, 0.25)), min_size=K, max_size=K))
+    cxy = np.array([[(c[0] + j[0]) * spacing, (c[1] + j[1]) * spacing] for c, j in zip(cells, jit)])
+    cra, cdec = tangent_to_sky(base, cxy)
+    cats = []
+    for c in range(ncat):
+        xs = []
+        for p in range(K):
+            n = draw(st.integers(1, max_per_patch))
+            extent = draw(st.sampled_from([0.03, 0.15, 0.4, 0.7, 1.1])) * spacing
+            pts = draw(st.lists(unit_disk, min_size=n, max_size=n))
+            for i, (ux, uy) in enumerate(pts):
+                e = 0.02 * spacing if i == 0 else extent  # first object anchors the patch
+                xs.append([cxy[p, 0] + e * ux, cxy[p, 1] + e * uy])
+            if draw(st.sampled_from([False, False, True])) and n >= 2:
+                xs.append(list(xs[-1]))  # exact duplicate position
+        ra, dec = tangent_to_sky(base, np.array(xs))
+        n = len(ra)
+        cat = {"ra": ra.tolist(), "dec": dec.tolist(), "w": None, "z": None}
+        wmode = weights if weights != "any" else draw(st.sampled_from(["none", "float", "float"]))
+        if wmode == "float":
+            cat["w"] = draw(st.lists(st.one_of(floats(0.1, 5.0), st.sampled_from([1.0, 2.0, 0.5])), min_size=n, max_size=n))
+        if c in need_z or draw(st.booleans()):
+            cat["z"] = draw(redshift_values(n, edges))
+        cats.append(cat)
+    return {"base": [float(base[0]), float(base[1])], "spacing": float(spacing), "centers": np.column_stack([cra, cdec]).tolist(), "cats": cats}
